@@ -42,6 +42,7 @@ type c38Disk struct {
 	archives int
 	savedOK  int      // Save calls applied to the disk
 	savedAs  []string // directory+name of the applied Save calls
+	oplog    []string // applied operations in order: "save <dir><name>" / "archive <dir>"
 	yields   int      // Gosched calls around the real disk write (concurrent steps)
 }
 
@@ -72,6 +73,7 @@ func (d *c38Disk) Save(data []byte, directory string, name string) error {
 	d.mu.Lock()
 	d.savedOK++
 	d.savedAs = append(d.savedAs, directory+name)
+	d.oplog = append(d.oplog, "save "+directory+name)
 	d.mu.Unlock()
 	for i := 0; i < y; i++ {
 		runtime.Gosched()
@@ -93,6 +95,12 @@ func (d *c38Disk) Archive(directory string) error {
 	case "crash-before":
 		panic(c38Crash{})
 	}
+	d.mu.Lock()
+	y := d.yields
+	d.mu.Unlock()
+	for i := 0; i < y; i++ {
+		runtime.Gosched()
+	}
 	if err := d.ProtectedHandle.Archive(directory); err != nil {
 		if o == "crash-after" {
 			panic(fmt.Sprintf("VERIF-INCONCLUSIVE: real disk archive failed: %v", err))
@@ -101,7 +109,11 @@ func (d *c38Disk) Archive(directory string) error {
 	}
 	d.mu.Lock()
 	d.archived = append(d.archived, directory)
+	d.oplog = append(d.oplog, "archive "+directory)
 	d.mu.Unlock()
+	for i := 0; i < y; i++ {
+		runtime.Gosched()
+	}
 	if o == "crash-after" {
 		panic(c38Crash{})
 	}
@@ -209,6 +221,7 @@ type c38Machine struct {
 	registered map[int]map[group.MemberIndex]string
 
 	archives, crashes, failures, restarts, sweeps, chainErrors, latestSkipped, overwrites int
+	concurrentSweeps                                                                      int
 	concurrentSteps, concurrentNewGroup                                                   int
 	archiveSinceRestart, crashSinceRestart, ntRestart                                     bool
 }
@@ -362,24 +375,31 @@ func (m *c38Machine) compareWithRestarted() {
 // registerConcurrently registers several members of one group from parallel
 // goroutines released together (the DKG executor registers one signer per
 // controlled seat this way). Storage works; the disk layer yields.
-func (m *c38Machine) registerConcurrently(g int, members []group.MemberIndex, shares []int64, channel string, yields int) {
+func (m *c38Machine) registerConcurrently(g int, members []group.MemberIndex, shares []int64, channel string, sweeps int, yields int) {
 	type job struct {
-		signer *dkg.ThresholdSigner
+		signer *dkg.ThresholdSigner // nil: a stale-group sweep that finds group g stale
 		rec    string
 		err    error
 		p      any
 	}
 	gr := m.groups[g]
-	jobs := make([]*job, len(members))
+	var jobs []*job
 	for i, id := range members {
 		signer := dkg.NewThresholdSigner(id, gr.pk, big.NewInt(shares[i]), gr.shares, gr.ops)
-		jobs[i] = &job{signer: signer, rec: c38Render(&Membership{Signer: signer, ChannelName: channel})}
+		jobs = append(jobs, &job{signer: signer, rec: c38Render(&Membership{Signer: signer, ChannelName: channel})})
+	}
+	for i := 0; i < sweeps; i++ {
+		jobs = append(jobs, &job{})
 	}
 	wasStored := m.stored(g)
+	m.chain.mu.Lock()
+	m.chain.stale = map[string]string{fmt.Sprintf("%x", gr.key): "stale"} // the other groups are fresh
+	m.chain.mu.Unlock()
 	m.disk.mu.Lock()
 	m.disk.nextSave = "ok"
+	m.disk.archive = map[string]string{}
 	m.disk.yields = yields
-	mark := len(m.disk.savedAs)
+	mark := len(m.disk.oplog)
 	m.disk.mu.Unlock()
 	var ready atomic.Int32
 	var gate atomic.Bool
@@ -393,7 +413,11 @@ func (m *c38Machine) registerConcurrently(g int, members []group.MemberIndex, sh
 			for !gate.Load() {
 				runtime.Gosched()
 			}
-			j.err = m.reg.RegisterGroup(j.signer, channel)
+			if j.signer == nil {
+				m.reg.UnregisterStaleGroups(nil)
+			} else {
+				j.err = m.reg.RegisterGroup(j.signer, channel)
+			}
 		}(j)
 	}
 	for ready.Load() != int32(len(jobs)) {
@@ -403,32 +427,52 @@ func (m *c38Machine) registerConcurrently(g int, members []group.MemberIndex, sh
 	wg.Wait()
 	m.disk.mu.Lock()
 	m.disk.yields = 0
-	applied := map[string]bool{}
-	for _, a := range m.disk.savedAs[mark:] {
-		applied[a] = true
-	}
+	oplog := append([]string{}, m.disk.oplog[mark:]...)
 	m.disk.mu.Unlock()
-	m.logf("register-concurrently(g%d,m%v,yields=%d)", g, members, yields)
+	m.logf("concurrently(g%d,register m%v,sweep x%d,yields=%d)", g, members, sweeps, yields)
 	m.concurrentSteps++
 	if !wasStored {
 		m.concurrentNewGroup++
 	}
-	for i, j := range jobs {
+	if sweeps > 0 {
+		m.concurrentSweeps++
+	}
+	for _, j := range jobs {
 		if j.p != nil {
-			m.fail("RegisterGroup panicked in a concurrent registration: %v", j.p)
+			m.fail("a registry call panicked in a concurrent step: %v", j.p)
 		}
-		id := members[i]
-		if applied[fmt.Sprintf("%s/membership_%d", gr.dir, id)] {
+	}
+	// The storage calls of one registry are serialised by its lock, so the
+	// order in which they were applied is a linearisation of the step: replay
+	// it on the models (any order of the concurrent calls is acceptable).
+	byMember := map[string]*job{}
+	for i, j := range jobs[:len(members)] {
+		byMember[fmt.Sprintf("save %s/membership_%d", gr.dir, members[i])] = j
+	}
+	saved := map[*job]bool{}
+	for _, a := range oplog {
+		if j, ok := byMember[a]; ok {
+			id := j.signer.MemberID()
 			if _, again := m.storage[g][id]; again {
 				m.overwrites++
 			}
 			m.storage[g][id] = j.rec
-			if _, ok := m.registered[g][id]; ok {
+			saved[j] = true
+			if _, known := m.registered[g][id]; known || j.err == nil {
 				m.registered[g][id] = j.rec
 			}
+		} else if a == "archive "+gr.dir {
+			m.storage[g] = map[group.MemberIndex]string{}
+			m.registered[g] = map[group.MemberIndex]string{}
+			m.archives++
+			m.archiveSinceRestart = true
+		} else {
+			m.fail("concurrent step on group %d applied the unexpected storage operation %q", g, a)
 		}
-		if j.err == nil {
-			m.registered[g][id] = j.rec
+	}
+	for _, j := range jobs[:len(members)] {
+		if j.err == nil && !saved[j] {
+			m.registered[g][j.signer.MemberID()] = j.rec // success reported without a write
 		}
 	}
 	// running registry == restarted registry == model
@@ -504,9 +548,13 @@ func TestVerif_C38_GroupRegistry(t *testing.T) {
 			nMembers := rapid.IntRange(2, 5).Draw(t, "memberCount")
 			memberShares := rapid.SliceOfN(rapid.Int64Range(1, 1<<30), 5, 5).Draw(t, "memberShares")
 			yields := rapid.IntRange(0, 3).Draw(t, "diskYields")
+			concSweeps := rapid.SampledFrom([]int{0, 0, 1, 1, 2}).Draw(t, "concurrentSweeps")
+			if rapid.IntRange(0, 5).Draw(t, "sweepsOnly") == 0 && concSweeps == 2 {
+				nMembers = 0 // sweep || sweep
+			}
 			switch op {
 			case "register-concurrently":
-				m.registerConcurrently(g, memberOrder[:nMembers], memberShares[:nMembers], channel, yields)
+				m.registerConcurrently(g, memberOrder[:nMembers], memberShares[:nMembers], channel, concSweeps, yields)
 				continue
 			case "register":
 				gr := m.groups[g]
@@ -609,6 +657,7 @@ func TestVerif_C38_GroupRegistry(t *testing.T) {
 			fmt.Sprintf("latest-group-skipped:%v", m.latestSkipped > 0), fmt.Sprintf("member-overwritten:%v", m.overwrites > 0),
 			fmt.Sprintf("concurrent-registration-steps:%d", min(m.concurrentSteps, 4)),
 			fmt.Sprintf("concurrent-registration-of-new-group:%d", min(m.concurrentNewGroup, 3)),
+			fmt.Sprintf("concurrent-steps-with-sweep:%d", min(m.concurrentSweeps, 3)),
 			"memberships-at-end:"+strings.Join(stored, "/"))
 	})
 }
